@@ -659,3 +659,153 @@ Proof.
   unfold picklable. destruct m as [nm w]. simpl. rewrite forallb_app. intros H.
   now apply andb_true_iff in H.
 Qed.
+
+(** * Fuel: [fuel_for t = S (height t)] always suffices — no adequately fuelled run of the model
+    ends on [FFuel], so the statements above (which hold for every amount of fuel) are about
+    real results. *)
+Section Fuel.
+  Variable body : N -> list (N * value) -> option value.
+  Variable cbf : N -> value -> option value.
+  Variable eff : N -> value -> bool.
+  Notation eval := (eval body cbf eff).
+  Notation keys := (keys body cbf eff).
+  Notation valid := (valid body cbf eff).
+
+  Definition lmax {K} (l : list (K * node)) : nat := fold_right (fun '(_, x) m => Nat.max (height x) m) 0 l.
+
+  Lemma lmax_in {K} (l : list (K * node)) k x : In (k, x) l -> height x <= lmax l.
+  Proof.
+    induction l as [|[k' x'] l IH]; simpl; [tauto|].
+    intros [H|H]; [injection H as -> ->; lia|]. specialize (IH H). lia.
+  Qed.
+
+  Lemma tfind_in k lk n : tfind k lk = Some n -> exists k', In (k', n) lk.
+  Proof.
+    induction lk as [|[k' x] lk IH]; simpl; [discriminate|].
+    destruct (hkey_eqb k k'); [intros H; injection H as ->; eauto|].
+    intros H. destruct (IH H) as [k0 H0]. eauto.
+  Qed.
+
+  Lemma choose_height r lk df n b :
+    choose r lk df = Ok (n, b) ->
+    height n <= Nat.max (lmax lk) (match df with Some m => height m | None => 0 end).
+  Proof.
+    unfold choose. destruct r as [v|e].
+    - destruct (negb (hashable v)); [discriminate|].
+      destruct (match to_hkey v with Some k => tfind k lk | None => None end) as [m|] eqn:E.
+      + intros H; injection H as -> _. destruct (to_hkey v) as [k|]; [|discriminate].
+        destruct (tfind_in _ _ _ E) as [k' Hin]. pose proof (lmax_in _ _ _ Hin). lia.
+      + destruct df as [m|]; [|discriminate]. intros H; injection H as -> _. lia.
+    - destruct df as [m|]; [|discriminate]. intros H; injection H as -> _. lia.
+  Qed.
+
+  Lemma choose_nofuel r lk df e : r <> Fail FFuel -> choose r lk df = Fail e -> e <> FFuel.
+  Proof.
+    unfold choose. destruct r as [v|e0]; intros Hr.
+    - destruct (negb (hashable v)); [intros H; injection H as <-; discriminate|].
+      destruct (match to_hkey v with Some k => tfind k lk | None => None end); [discriminate|].
+      destruct df; [discriminate|]. intros H; injection H as <-; discriminate.
+    - destruct df; [discriminate|]. intros H; injection H as <-. congruence.
+  Qed.
+
+  Lemma map_res_nofuel {B} (g : node -> res B) (a : list (N * node)) :
+    (forall n x, In (n, x) a -> g x <> Fail FFuel) -> map_res g a <> Fail FFuel.
+  Proof.
+    induction a as [|[n x] a IH]; simpl; intros H; [discriminate|].
+    pose proof (H n x (or_introl eq_refl)) as Hx.
+    destruct (g x) as [b|e]; [|congruence].
+    assert (Ha : map_res g a <> Fail FFuel) by (apply IH; intros; eapply H; right; eauto).
+    destruct (map_res g a); [discriminate|congruence].
+  Qed.
+
+  Lemma cat_res_nofuel (g : node -> res (list key)) (a : list (N * node)) :
+    (forall n x, In (n, x) a -> g x <> Fail FFuel) -> cat_res g a <> Fail FFuel.
+  Proof.
+    induction a as [|[n x] a IH]; simpl; intros H; [discriminate|].
+    pose proof (H n x (or_introl eq_refl)) as Hx.
+    destruct (g x) as [b|e]; [|congruence].
+    assert (Ha : cat_res g a <> Fail FFuel) by (apply IH; intros; eapply H; right; eauto).
+    destruct (cat_res g a); [discriminate|congruence].
+  Qed.
+
+  Lemma all_res_nofuel (g : node -> res unit) (a : list (N * node)) :
+    (forall n x, In (n, x) a -> g x <> Fail FFuel) -> all_res g a <> Fail FFuel.
+  Proof.
+    induction a as [|[n x] a IH]; simpl; intros H; [discriminate|].
+    pose proof (H n x (or_introl eq_refl)) as Hx.
+    destruct (g x) as [b|e]; [|congruence].
+    apply IH; intros; eapply H; right; eauto.
+  Qed.
+
+  Lemma enough_eval_keys fuel :
+    (forall t o, height t < fuel -> eval fuel t o <> Fail FFuel) /\
+    (forall t o, height t < fuel -> keys fuel t o <> Fail FFuel).
+  Proof.
+    induction fuel as [|f [IHe IHk]]; [split; intros; lia|].
+    split; intros t o Hh; destruct t as [j| |k d|fn a|d lk df l|ov effs c po dpo cb dis m];
+      rewrite ?eval_S, ?keys_S; try discriminate; simpl in Hh.
+    - destruct (lookup_top k o); try discriminate.
+      destruct d as [n|]; [apply IHe; lia|discriminate].
+    - assert (H : map_res (fun x => eval f x o) a <> Fail FFuel).
+      { apply map_res_nofuel. intros n x Hin. apply IHe. pose proof (lmax_in _ _ _ Hin). unfold lmax in *. lia. }
+      destruct (map_res _ a); [|congruence]. destruct (body fn a0); discriminate.
+    - assert (Hd : eval f d o <> Fail FFuel) by (apply IHe; lia).
+      destruct (choose (eval f d o) lk df) as [[n b]|e] eqn:E.
+      + apply IHe. pose proof (choose_height _ _ _ _ _ E). unfold lmax in *. lia.
+      + pose proof (choose_nofuel _ _ _ _ Hd E). congruence.
+    - cbv zeta.
+      assert (Hov : eval f ov (mix (mix dpo o) po) <> Fail FFuel) by (apply IHe; lia).
+      assert (Hk : keys f ov (mix (mix dpo o) po) <> Fail FFuel) by (apply IHk; lia).
+      assert (Hc : match eval f ov (mix (mix dpo o) po) with
+                   | Ok v => match apply_callbacks cbf cb v with
+                             | Some v' => if dis || effects_disabled_opt (mix (mix dpo o) po) then Ok v'
+                                          else if forallb (fun e => eff e v') effs then Ok v' else Fail FUser
+                             | None => Fail FUser end
+                   | Fail e => Fail e end <> Fail FFuel).
+      { destruct (eval f ov _); [|congruence]. destruct (apply_callbacks cbf cb a); [|discriminate].
+        destruct (dis || _); [discriminate|]. destruct (forallb _ effs); discriminate. }
+      destruct c as [|es]; [exact Hc|].
+      destruct (cache_disabled _); [exact Hc|].
+      destruct (keys f ov _); [|congruence]. destruct (cfind _ es); [discriminate|exact Hc].
+    - destruct (lookup_top k o); try discriminate.
+      destruct d as [n|]; [apply IHk; lia|discriminate].
+    - apply cat_res_nofuel. intros n x Hin. apply IHk. pose proof (lmax_in _ _ _ Hin). unfold lmax in *. lia.
+    - assert (Hd : eval f d o <> Fail FFuel) by (apply IHe; lia).
+      destruct (choose (eval f d o) lk df) as [[n b]|e] eqn:E.
+      + assert (Hn : keys f n o <> Fail FFuel).
+        { apply IHk. pose proof (choose_height _ _ _ _ _ E). unfold lmax in *. lia. }
+        destruct (keys f n o); [|congruence]. destruct b; [|discriminate].
+        assert (Hkd : keys f d o <> Fail FFuel) by (apply IHk; lia).
+        destruct (keys f d o); [discriminate|congruence].
+      + pose proof (choose_nofuel _ _ _ _ Hd E). congruence.
+    - cbv zeta. assert (Hk : keys f ov (mix (mix dpo o) po) <> Fail FFuel) by (apply IHk; lia).
+      destruct (keys f ov _); [discriminate|congruence].
+  Qed.
+
+  Lemma enough_valid fuel : forall t o, height t < fuel -> valid fuel t o <> Fail FFuel.
+  Proof.
+    induction fuel as [|f IH]; [intros; lia|].
+    destruct (enough_eval_keys f) as [IHe IHk].
+    intros t o Hh; destruct t as [j| |k d|fn a|d lk df l|ov effs c po dpo cb dis m];
+      rewrite valid_S; try discriminate; simpl in Hh.
+    - destruct (lookup_top k o); try discriminate.
+      destruct d as [n|]; [apply IH; lia|discriminate].
+    - apply all_res_nofuel. intros n x Hin. apply IH. pose proof (lmax_in _ _ _ Hin). unfold lmax in *. lia.
+    - assert (Hd : eval f d o <> Fail FFuel) by (apply IHe; lia).
+      destruct (choose (eval f d o) lk df) as [[n b]|e] eqn:E.
+      + apply IH. pose proof (choose_height _ _ _ _ _ E). unfold lmax in *. lia.
+      + pose proof (choose_nofuel _ _ _ _ Hd E). congruence.
+    - cbv zeta. assert (Hv : valid f ov (mix (mix dpo o) po) <> Fail FFuel) by (apply IH; lia).
+      assert (Hk : keys f ov (mix (mix dpo o) po) <> Fail FFuel) by (apply IHk; lia).
+      destruct c as [|es]; [exact Hv|]. destruct (cache_disabled _); [exact Hv|].
+      destruct (keys f ov _); [|congruence]. destruct (cfind _ es); [discriminate|exact Hv].
+  Qed.
+
+  Theorem fuel_for_is_enough t o :
+    eval (fuel_for t) t o <> Fail FFuel /\ keys (fuel_for t) t o <> Fail FFuel /\
+    valid (fuel_for t) t o <> Fail FFuel.
+  Proof.
+    unfold fuel_for. destruct (enough_eval_keys (S (height t))) as [He Hk].
+    repeat split; [apply He|apply Hk|apply enough_valid]; lia.
+  Qed.
+End Fuel.
